@@ -582,6 +582,7 @@ func init() {
 		hs := histSuite(n, 120, 2500)
 		if kinds, ok := schedKinds[n]; ok {
 			ss := schedSuite("sched"+n, kinds, 24, 400)
+			suites["sched"+n] = ss // the schedule part alone (used to survey outcome classes over many seeds)
 			suites[n] = func(rng *rand.Rand, tier string, w *Writer) { hs(rng, tier, w); ss(rng, tier, w) }
 		} else {
 			suites[n] = hs
